@@ -611,3 +611,20 @@ def last_dominating(b, nid, kind):
         if d != nid and b.g.n(d).kind == kind:
             return d
     return None
+
+
+def dom_c(b, a, n):
+    """Every run-consistent path entry -> n passes a (feasibility-aware dominance)."""
+    if b.g.dominates(a, n):
+        return True
+    return cut_c(b, b.g.entry, n, [a])
+
+
+def reachable_c(b, starts, targets, blocked=()):
+    """Targets (node ids) reachable from starts along a run-consistent path."""
+    plain = b.g.reachable_from(list(starts), blocked=blocked)
+    out = []
+    for t in targets:
+        if t in plain and feasible_path(b, list(starts), t, blocked) is not None:
+            out.append(t)
+    return out
